@@ -45,8 +45,8 @@ Variable P : program.
 Variable reenter : N -> state -> rres.
 
 (* RegisterUpvalue (45): what the compiler guarantees about its two operands [index], [is_local]:
-   a captured local exists in the frame (below the closure that was just pushed); a captured upvalue of the
-   enclosing function exists (the enclosing function runs as a closure with that many upvalues) *)
+   a captured upvalue of the enclosing function exists (the enclosing function runs as a closure with that
+   many upvalues).  (A captured local without a slot is an error value since a56dd03, no condition needed.) *)
 Definition reg_upvalue_ok (s : state) (index is_local : N) : Prop :=
   if (is_local =? 0)%N then
     match st_calls s with
@@ -61,11 +61,7 @@ Definition reg_upvalue_ok (s : state) (index is_local : N) : Prop :=
         end
     | [] => True
     end
-  else
-    match top_offset s with
-    | Some off => off + N.to_nat index < scount s - 1
-    | None => True
-    end.
+  else True.   (* a captured local without a slot is the error InvalidArgument since a56dd03 *)
 
 Record step_pre2 (ip0 : N) (s : state) : Prop := mkStepPre2 {
   (* operands_ok (C10) *)
@@ -383,9 +379,7 @@ Proof.
   - (* a local of the current frame *)
     assert (Eto : top_offset s1 = top_offset s) by (unfold top_offset; rewrite Hca; reflexivity).
     rewrite Eto. destruct (top_offset_some s Hcalls) as [off Eoff]. rewrite Eoff in *.
-    assert (Hsc : scount s1 <=? off + N.to_nat index = false).
-    { apply Nat.leb_gt. unfold scount in *. lia. }
-    rewrite Hsc.
+    destruct (scount s1 <=? off + N.to_nat index); [exact I|].
     destruct (sq_open ip0 s Hpre) as (l & Hch & Hnd). rewrite <- Hh, <- Hopen in Hch.
     pose proof (walk_open_no_stop (st_heap s1) (off + N.to_nat index) (S (length (st_heap s1))) None (st_open s1) l Hch) as Hw.
     pose proof (live_nodup_length (st_heap s1) l Hnd (open_chain_live _ _ _ Hch)) as Hll.
